@@ -11,7 +11,7 @@ Require Import Grits.spec.Rename Grits.proofs.RenameTypes Grits.proofs.RenameSub
                Grits.proofs.RenameExt Grits.proofs.RenameRun.
 
 Definition key_faithful (r : renaming) (okT okL : string -> Prop) : Prop :=
-  forall s t s' t', okt okT okL s -> okt okT okL t -> okt okT okL s' -> okt okT okL t' ->
+  forall s t s' t', okt okT okL pm False s -> okt okT okL pm False t -> okt okT okL pm False s' -> okt okT okL pm False t' ->
   (eq_key (rn_sty r s) (rn_sty r t) = eq_key (rn_sty r s') (rn_sty r t') <-> eq_key s t = eq_key s' t').
 
 Definition inT (p : program) : string -> Prop := fun x => In x (a_type (program_atoms p)).
@@ -19,28 +19,22 @@ Definition inL (p : program) : string -> Prop := fun x => In x (a_label (program
 Definition key_faithful_on (r : renaming) (p : program) : Prop := key_faithful r (inT p) (inL p).
 
 (* ---------- every type of a program is built from its atoms ---------- *)
-Lemma okt_mono (P P' Q Q' : string -> Prop) : (forall x, P x -> P' x) -> (forall x, Q x -> Q' x) ->
-  (forall t, okt P Q t -> okt P' Q' t) /\ (forall b, okbrs P Q b -> okbrs P' Q' b).
-Proof.
-  intros HP HQ. apply sty_brs_ind; intros; cbn [okt okbrs] in *; auto; try tauto.
-  destruct H1 as (? & ? & ?). auto.
-Qed.
-Lemma okt_weaken (P P' Q Q' : string -> Prop) t : okt P Q t -> (forall x, P x -> P' x) -> (forall x, Q x -> Q' x) -> okt P' Q' t.
-Proof. intros H HP HQ. exact (proj1 (okt_mono P P' Q Q' HP HQ) t H). Qed.
-Lemma okbrs_weaken (P P' Q Q' : string -> Prop) b : okbrs P Q b -> (forall x, P x -> P' x) -> (forall x, Q x -> Q' x) -> okbrs P' Q' b.
-Proof. intros H HP HQ. exact (proj2 (okt_mono P P' Q Q' HP HQ) b H). Qed.
+Lemma okt_mono (P P' Q Q' : string -> Prop) (M : mode -> Prop) (NE : Prop) : (forall x, P x -> P' x) -> (forall x, Q x -> Q' x) ->
+  (forall t, okt P Q M NE t -> okt P' Q' M NE t) /\ (forall b, okbrs P Q M NE b -> okbrs P' Q' M NE b).
+Proof. intros HP HQ. apply sty_brs_ind; intros; cbn [okt okbrs] in *; intuition auto. Qed.
+Lemma okt_weaken (P P' Q Q' : string -> Prop) M NE t : okt P Q M NE t -> (forall x, P x -> P' x) -> (forall x, Q x -> Q' x) -> okt P' Q' M NE t.
+Proof. intros H HP HQ. exact (proj1 (okt_mono P P' Q Q' M NE HP HQ) t H). Qed.
+Lemma okbrs_weaken (P P' Q Q' : string -> Prop) M NE b : okbrs P Q M NE b -> (forall x, P x -> P' x) -> (forall x, Q x -> Q' x) -> okbrs P' Q' M NE b.
+Proof. intros H HP HQ. exact (proj2 (okt_mono P P' Q Q' M NE HP HQ) b H). Qed.
 
 Lemma okt_atoms :
-  (forall t, okt (fun x => In x (a_type (sty_atoms t))) (fun x => In x (a_label (sty_atoms t))) t) /\
-  (forall b, okbrs (fun x => In x (a_type (brs_atoms b))) (fun x => In x (a_label (brs_atoms b))) b).
+  (forall t, okt (fun x => In x (a_type (sty_atoms t))) (fun x => In x (a_label (sty_atoms t))) anym False t) /\
+  (forall b, okbrs (fun x => In x (a_type (brs_atoms b))) (fun x => In x (a_label (brs_atoms b))) anym False b).
 Proof.
-  apply sty_brs_ind; intros; cbn [okt okbrs sty_atoms brs_atoms]; auto.
-  - left; reflexivity.
-  - split; [eapply okt_weaken; [exact H| |] | eapply okt_weaken; [exact H0| |]]; intros x Hx; cbn; apply in_or_app; auto.
-  - split; [eapply okt_weaken; [exact H| |] | eapply okt_weaken; [exact H0| |]]; intros x Hx; cbn; apply in_or_app; auto.
-  - split; [left; reflexivity|]. split.
-    + eapply okt_weaken; [exact H| |]; intros x Hx; cbn; try right; apply in_or_app; auto.
-    + eapply okbrs_weaken; [exact H0| |]; intros x Hx; cbn; try right; apply in_or_app; auto.
+  apply sty_brs_ind; intros; cbn [okt okbrs sty_atoms brs_atoms]; unfold anym; repeat split; auto;
+    try (intros []; fail); try (left; reflexivity);
+    try (eapply okt_weaken; [eassumption| |]; intros x Hx; cbn; try right; apply in_or_app; auto; fail);
+    try (eapply okbrs_weaken; [eassumption| |]; intros x Hx; cbn; try right; apply in_or_app; auto; fail).
 Qed.
 
 Definition sub_atoms (a b : atoms) : Prop :=
@@ -59,11 +53,11 @@ Proof.
   - eapply sub_trans; [apply IH, H | apply sub_app_r].
 Qed.
 
-Definition okA (a : atoms) := okt (fun x => In x (a_type a)) (fun x => In x (a_label a)).
+Definition okA (a : atoms) := okt (fun x => In x (a_type a)) (fun x => In x (a_label a)) anym False.
 Lemma okA_sub a b t : sub_atoms a b -> okA a t -> okA b t.
-Proof. intros [H1 H2]. apply (proj1 (okt_mono _ _ _ _ H1 H2)). Qed.
+Proof. intros [H1 H2]. apply (proj1 (okt_mono _ _ _ _ anym False H1 H2)). Qed.
 Lemma okA_self t : okA (sty_atoms t) t. Proof. apply okt_atoms. Qed.
-Lemma okotA a t : sub_atoms (osty_atoms t) a -> okot (fun x => In x (a_type a)) (fun x => In x (a_label a)) t.
+Lemma okotA a t : sub_atoms (osty_atoms t) a -> okot (fun x => In x (a_type a)) (fun x => In x (a_label a)) anym False t.
 Proof. destruct t as [t|]; cbn [okot osty_atoms]; [|auto]. intros H. eapply okA_sub; [exact H | apply okA_self]. Qed.
 
 Lemma sub_app_inv a b c : sub_atoms (at_app a b) c -> sub_atoms a c /\ sub_atoms b c.
@@ -75,26 +69,26 @@ Ltac split_sub :=
   end.
 
 Lemma okform_atoms a :
-  (forall f, sub_atoms (form_atoms f) a -> okform (fun x => In x (a_type a)) (fun x => In x (a_label a)) f) /\
-  (forall b, sub_atoms (branches_atoms b) a -> okbranches (fun x => In x (a_type a)) (fun x => In x (a_label a)) b).
+  (forall f, sub_atoms (form_atoms f) a -> okform (fun x => In x (a_type a)) (fun x => In x (a_label a)) False f) /\
+  (forall b, sub_atoms (branches_atoms b) a -> okbranches (fun x => In x (a_type a)) (fun x => In x (a_label a)) False b).
 Proof.
   apply form_branches_ind; intros; cbn [okform okbranches form_atoms branches_atoms] in *; auto; split_sub;
     repeat match goal with
     | |- _ /\ _ => split
-    | |- okot _ _ _ => apply okotA; assumption
+    | |- okot _ _ _ _ _ => apply okotA; assumption
     | IH : sub_atoms ?x a -> ?G |- ?G => apply IH; assumption
     end.
 Qed.
 
 Lemma oknames_atoms a ns : sub_atoms (names_atoms ns) a ->
-  oknames (fun x => In x (a_type a)) (fun x => In x (a_label a)) ns.
+  oknamesr (fun x => In x (a_type a)) (fun x => In x (a_label a)) False ns.
 Proof.
   intros H. apply Forall_forall. intros n Hn. apply okotA.
   eapply sub_trans; [|exact H]. eapply sub_trans; [|apply (sub_concat name_atoms ns n Hn)].
   unfold name_atoms. apply sub_app_r.
 Qed.
 
-Theorem okprog_atoms p : okprog (inT p) (inL p) p.
+Theorem okprog_atoms p : okprog (inT p) (inL p) False p.
 Proof.
   unfold okprog, inT, inL. set (a := program_atoms p).
   assert (S0 : sub_atoms (program_atoms p) a) by apply sub_refl.
@@ -120,10 +114,9 @@ Qed.
 (* a renaming that agrees with r on the atoms of p is key-faithful on p if r is *)
 Lemma rn_sty_agree r r' (P Q : string -> Prop) :
   (forall x, P x -> rt r' x = rt r x) -> (forall x, Q x -> rl r' x = rl r x) ->
-  (forall t, okt P Q t -> rn_sty r' t = rn_sty r t) /\ (forall b, okbrs P Q b -> rn_brs r' b = rn_brs r b).
+  (forall t, okt P Q pm False t -> rn_sty r' t = rn_sty r t) /\ (forall b, okbrs P Q pm False b -> rn_brs r' b = rn_brs r b).
 Proof.
-  intros HP HQ. apply sty_brs_ind; intros; cbn [okt okbrs rn_sty rn_brs] in *; f_equal; auto; try tauto;
-    first [apply HQ; tauto | apply H; tauto | apply H0; tauto].
+  intros HP HQ. apply sty_brs_ind; intros; cbn [okt okbrs rn_sty rn_brs] in *; f_equal; intuition auto.
 Qed.
 Lemma key_faithful_agree r r' p : agree r' r (program_atoms p) -> key_faithful_on r p -> key_faithful_on r' p.
 Proof.
@@ -144,7 +137,7 @@ Proof.
   intros Ha Hk. destruct (globalize_spec r p Ha) as ((Hc & Hc0 & Hf & Ht & Hl) & Ep & Hag).
   exists (globalize r p). split; [repeat split; assumption|]. split; [exact Hag|]. split; [reflexivity|].
   rewrite <- Ep.
-  apply (typecheck_rn (globalize r p) Hc Hf Ht Hl (inT p) (inL p)).
+  apply (typecheck_rn (globalize r p) Hc Hf Ht Hl (inT p) (inL p) False).
   - apply (key_faithful_agree r); assumption.
   - apply okprog_atoms.
 Qed.
